@@ -94,7 +94,7 @@ SHAPES = {
 }
 FULL_CELLS = 2          # layouts with at most this many cells get the full Cartesian product of secondary parameters
 LOADUNLOAD_SIZES = {'quick': [1, 2, 3, 4, 5], 'thorough': [1, 2, 3, 4, 5, 6, 7, 8]}
-TIGER_COHERENCE = [0.0, 0.5, 0.85, 1.0]
+TIGER_COHERENCE = [0.0, 0.5, 0.85, 1.0, 0.875, 0.125, 1 / 3, 0.999]
 ALPHA = {'gw': (GW_ALPHA, 's'), 'windy': (WG_ALPHA, '@'), 'hoh': (HH_ALPHA, 's')}
 
 
